@@ -61,7 +61,10 @@ class Profiler:
         """Create a profiler."""
         if Profiler.enabled:
             if multiprocessing.parent_process() is None:
-                self.enabled = True
+                # profiling is enabled once for the whole main process; a
+                # worker function that happens to run in the main process
+                # must not enable it again
+                self.enabled = is_main
                 self.filename = '.profile.prof'
             else:
                 self.enabled = True
